@@ -39,6 +39,15 @@ func genC09(env *core.Env, emit func(core.Case)) {
 			}
 		}
 		T := gen.NewKey(r, id, "public.example", gen.AllSuites)
+		if hi%2 == 1 {
+			// the target key as other tools publish it: maximum_name_length 0 (or an operator's 64), maybe a
+			// config extension - valid, but not this library's own encoding of the same contents
+			var exts []gen.Ext
+			if hi%4 == 3 {
+				exts = []gen.Ext{{Type: 0x1234, Data: gen.RandBytes(r, 5)}}
+			}
+			T.Config = gen.EncodeConfigWith(id, 0x20, T.Priv.PublicKey().Bytes(), gen.AllSuites, "public.example", []uint8{0, 64}[hi/2%2], exts)
+		}
 		pool := []*gen.KeyMat{
 			T,
 			gen.NewKey(r, id, "other.example", gen.AllSuites),  // A same id, same suites, other public name
